@@ -190,13 +190,34 @@ def history_probes(ctx, lt, ivs, arr_in, arr_snapshot, case, hist):
             ctx.violation(site, 'returned-array-aliases-state', 'writing into the array returned by '
                           'get_uptime_intervals_between changed a later result',
                           case={'ivs': ivs, 'window': (kind, t1, t2), 'scale': SCALE, 'history': hist})
+    # a REJECTED assignment must leave the object as it was (the setter checks before it stores)
+    for bad in (np.array([[5., 1.], [7., 9.]]), np.array([[0, 100]]), np.array([[1., 3.], [2., 4.]]), np.zeros((2, 3))):
+        try:
+            lt.uptime_mjd_intervals_arr = bad
+            rejected = False
+        except (TypeError, ValueError):
+            rejected = True
+        now = lt.uptime_mjd_intervals_arr
+        same = (now.shape == arr_in.shape) and np.array_equal(now, arr_snapshot)
+        if rejected and not same:
+            ctx.violation(site, 'rejected-assignment-changed-state',
+                          'an interval array rejected by the integrity check replaced the stored intervals',
+                          case={'ivs': ivs, 'scale': SCALE, 'history': hist, 'rejected': bad.tolist()},
+                          predicate='a rejected assignment leaves every query unchanged')
+            lt.uptime_mjd_intervals_arr = arr_in
+        elif not rejected:
+            ctx.violation(site, 'malformed-assignment-accepted', 'a malformed interval array was accepted by the setter',
+                          case={'ivs': ivs, 'scale': SCALE, 'rejected': bad.tolist()})
+            lt.uptime_mjd_intervals_arr = arr_in
     if not np.array_equal(arr_in, arr_snapshot):
         ctx.violation(site, 'argument-modified', 'the interval array handed to Livetime was modified',
                       case={'ivs': ivs, 'scale': SCALE, 'history': hist})
-    got = [(f2z(a), f2z(b)) for a, b in lt.uptime_mjd_intervals_arr.tolist()]
-    if got != list(ivs):
+    now = np.asarray(lt.uptime_mjd_intervals_arr, dtype=np.float64)
+    if now.shape != arr_snapshot.shape or not np.array_equal(now, arr_snapshot):
         ctx.violation(site, 'stored-intervals-changed', 'queries changed the stored up-time intervals',
-                      case={'ivs': ivs, 'scale': SCALE, 'history': hist}, impl=got[:6])
+                      case={'ivs': ivs, 'scale': SCALE, 'history': hist},
+                      impl=[[float.hex(float(a)), float.hex(float(b))] for a, b in now.tolist()[:6]])
+        lt.uptime_mjd_intervals_arr = arr_snapshot.copy()
 
 
 def edge_rounding_probe(ctx, Livetime):
